@@ -526,9 +526,45 @@ pub fn replay(sub: &str, case: &Value) -> Result<(), Fail> {
 fn _unused(_: ErrorCode) {}
 
 pub fn fuzz_targets() -> Vec<crate::fuzz::Target> {
-    use crate::fuzz::from_strategy;
-    vec![
-        from_strategy("c07_paths", "C07", "paths", path_case, check_paths),
-        from_strategy("c07_mounts", "C07", "mounts", mount_case, check_mounts),
-    ]
+    use crate::fuzz::{U, from_bytes};
+    fn toks(u: &mut U) -> Vec<u8> {
+        // same token alphabet as `seg_tokens` (index 9, the exact route's name, excluded)
+        u.vec(40, |u| u.below(9) as u8)
+    }
+    vec![from_bytes(
+        "c07_mounts",
+        "C07",
+        "mounts",
+        |data: &[u8]| {
+            let mut u = U::new(data);
+            let root = u.vec(2, |u| u.below(4) as u8);
+            let root_no_slash = u.bool();
+            let with_body = u.bool();
+            let exact_first = u.bool();
+            let registry = u.bool();
+            let middlewares = u.below(4) as u8;
+            let view = u.bool();
+            let target = match u.weighted(&[10, 3, 1, 1, 1]) {
+                0 => Target::Under(toks(&mut u)),
+                1 => Target::NearMiss {
+                    glue: u.below(4) as u8,
+                    toks: toks(&mut u),
+                },
+                2 => Target::Exact,
+                3 => Target::RootPrefix(u.below(3) as u8),
+                _ => Target::TrailingSlash,
+            };
+            Some(MountCase {
+                root,
+                root_no_slash,
+                target,
+                with_body,
+                exact_first,
+                registry,
+                middlewares,
+                view,
+            })
+        },
+        check_mounts,
+    )]
 }
